@@ -46,6 +46,10 @@ pub enum Op {
     Rebuild(u16),
     /// repeat the most recent operation producing a result (same operator and operands)
     Repeat,
+    /// two different operators on identical operands, back to back
+    BinPair(BinOp, BinOp, u16, u16),
+    /// subst(s1, f); subst(s2, f); subst(s1, f): first and third must be the same handle
+    SubstAlt(u8, u8, u16),
 }
 
 #[derive(Clone, Debug, Serialize, Deserialize)]
@@ -92,6 +96,10 @@ pub struct Stats {
     pub max_nodes: usize,
     pub level_ne_var: bool,
     pub excluded: u64,
+    /// running digest over all results (table, and node count where checked)
+    pub digest: u64,
+    pub binpairs: u64,
+    pub subst_alt: u64,
 }
 
 pub struct Entry<F> {
@@ -242,6 +250,7 @@ impl<K: BoolKind> Hist<K> {
         if self.collected.contains(&t) {
             self.stats.revived_after_gc += 1;
         }
+        self.stats.digest = crate::engine::mix(self.stats.digest ^ hash_of(&(t, f.node_count(), K::order(&self.mr))));
         if self.pool.len() >= self.max_pool {
             // replace the oldest entry to keep the pool bounded
             self.pool.remove(0);
@@ -383,30 +392,11 @@ impl<K: BoolKind> Hist<K> {
             }
             Op::Subst(slot, a) => {
                 let Some(a) = self.get(*a) else { return Ok(()) };
-                let slot = (*slot as usize) % self.substs.len();
-                let Some((s, vs, ts, uses)) = &mut self.substs[slot] else { return Ok(()) };
-                let Some(r) = K::substitute(&self.pool[a].f, s) else { return Ok(()) };
-                let r = r.map_err(|_| "oom: substitute")?;
-                *uses += 1;
-                if *uses > 1 {
-                    self.stats.subst_reuse += 1;
+                let f = self.pool[a].f.clone();
+                let t = self.pool[a].t;
+                if let Some((r, rt)) = self.apply_subst(*slot, &f, &t)? {
+                    self.push(r, rt, "substitute")?;
                 }
-                // tables of replacements may be over fewer variables if add_vars happened since
-                let ts: Vec<TT> = ts.iter().map(|t| t.extend_dc(n)).collect();
-                let src = self.pool[a].t;
-                let vs = vs.clone();
-                let t = TT::from_fn(n, |asg| {
-                    let mut b = asg;
-                    for (i, &v) in vs.iter().enumerate() {
-                        if ts[i].get(asg) {
-                            b |= 1 << v;
-                        } else {
-                            b &= !(1 << v);
-                        }
-                    }
-                    src.get(b)
-                });
-                self.push(r, t, "substitute")?;
             }
             Op::Cofactor(a, which) => {
                 let Some(a) = self.get(*a) else { return Ok(()) };
@@ -543,6 +533,37 @@ impl<K: BoolKind> Hist<K> {
                 }
                 self.push(r, t, "rebuild")?;
             }
+            Op::BinPair(o1, o2, a, b) => {
+                record_last = false;
+                let (Some(ai), Some(bi)) = (self.get(*a), self.get(*b)) else { return Ok(()) };
+                let (fa, fb) = (self.pool[ai].f.clone(), self.pool[bi].f.clone());
+                let (ta, tb) = (self.pool[ai].t, self.pool[bi].t);
+                let r1 = crate::c02::apply_op(*o1, &fa, &fb);
+                let r2 = crate::c02::apply_op(*o2, &fa, &fb);
+                self.stats.binpairs += 1;
+                self.push(r1, o1.tt(&ta, &tb), &format!("{o1:?}"))?;
+                self.push(r2, o2.tt(&ta, &tb), &format!("{o2:?} (right after {o1:?} on the same operands)"))?;
+            }
+            Op::SubstAlt(s1, s2, a) => {
+                record_last = false;
+                let Some(ai) = self.get(*a) else { return Ok(()) };
+                let f = self.pool[ai].f.clone();
+                let t = self.pool[ai].t;
+                let Some((r1, t1)) = self.apply_subst(*s1, &f, &t)? else { return Ok(()) };
+                let r2 = self.apply_subst(*s2, &f, &t)?;
+                let Some((r3, t3)) = self.apply_subst(*s1, &f, &t)? else { return Ok(()) };
+                self.stats.subst_alt += 1;
+                self.stats.comparisons += 1;
+                let same = r1 == r3;
+                self.push(r1, t1, "substitute (1st)")?;
+                if let Some((r2, t2)) = r2 {
+                    self.push(r2, t2, "substitute (other substitution in between)")?;
+                }
+                self.push(r3, t3, "substitute (same substitution again)")?;
+                if !same {
+                    return Err("noncanonical: subst(s1,f) before and after subst(s2,f) give different handles".into());
+                }
+            }
             Op::Repeat => {
                 record_last = false;
                 let Some(last) = self.last.clone() else { return Ok(()) };
@@ -573,6 +594,33 @@ impl<K: BoolKind> Hist<K> {
             self.last = Some(op.clone());
         }
         self.after_step()
+    }
+
+    fn apply_subst(&mut self, slot: u8, f: &K::F, src: &TT) -> Result<Option<(K::F, TT)>, String> {
+        let n = self.n;
+        let slot = (slot as usize) % self.substs.len();
+        let Some((s, vs, ts, uses)) = &mut self.substs[slot] else { return Ok(None) };
+        let Some(r) = K::substitute(f, s) else { return Ok(None) };
+        let r = r.map_err(|_| "oom: substitute")?;
+        *uses += 1;
+        if *uses > 1 {
+            self.stats.subst_reuse += 1;
+        }
+        // replacement tables may be over fewer variables if add_vars happened since
+        let ts: Vec<TT> = ts.iter().map(|t| t.extend_dc(n)).collect();
+        let src = src.extend_dc(n);
+        let t = TT::from_fn(n, |asg| {
+            let mut b = asg;
+            for (i, &v) in vs.iter().enumerate() {
+                if ts[i].get(asg) {
+                    b |= 1 << v;
+                } else {
+                    b &= !(1 << v);
+                }
+            }
+            src.get(b)
+        });
+        Ok(Some((r, t)))
     }
 
     pub fn gc(&mut self) -> Result<(), String> {
@@ -722,27 +770,29 @@ pub fn op_strategy(w: Weights) -> BoxedStrategy<Op> {
     let s = any::<u16>;
     prop_oneof![
         2 => any::<bool>().prop_map(Op::Const),
-        w.apply / 3 => s().prop_map(Op::Var),
-        w.apply / 6 => s().prop_map(Op::NotVar),
-        w.apply => (binop_strategy(), s(), s()).prop_map(|(o, a, b)| Op::Bin(o, a, b)),
-        w.apply / 6 => s().prop_map(Op::Not),
-        w.apply / 4 => (s(), s(), s()).prop_map(|(a, b, c)| Op::Ite(a, b, c)),
-        w.quant => (0u8..3, s(), s()).prop_map(|(q, a, m)| Op::Quant(q, a, m)),
-        w.quant => (0u8..3, binop_strategy(), s(), s(), s()).prop_map(|(q, o, a, b, m)| Op::ApplyQuant(q, o, a, b, m)),
-        w.quant => (s(), s(), s()).prop_map(|(a, p, n)| Op::Restrict(a, p, n)),
-        w.subst / 2 => (0u8..4, s(), proptest::collection::vec(s(), 1..4)).prop_map(|(sl, m, r)| Op::NewSubst(sl, m, r)),
-        w.subst => (0u8..4, s()).prop_map(|(sl, a)| Op::Subst(sl, a)),
-        w.apply / 8 => (s(), any::<bool>()).prop_map(|(a, b)| Op::Cofactor(a, b)),
-        w.lifecycle / 3 => s().prop_map(Op::Clone),
-        w.lifecycle => s().prop_map(Op::Drop),
-        w.lifecycle / 6 => s().prop_map(Op::DropOnThread),
-        w.lifecycle / 12 => Just(Op::DropAll),
-        w.gc => Just(Op::Gc),
-        w.gc / 2 => any::<u8>().prop_map(Op::Churn),
-        w.add_vars => (1u8..3).prop_map(Op::AddVars),
-        w.reorder => (proptest::collection::vec(s(), 8), s(), any::<bool>()).prop_map(|(k, m, q)| Op::SetOrder(k, m, q)),
-        w.rebuild => s().prop_map(Op::Rebuild),
-        w.repeat => Just(Op::Repeat),
+        (w.apply / 3).max(1) => s().prop_map(Op::Var),
+        (w.apply / 6).max(1) => s().prop_map(Op::NotVar),
+        (w.apply).max(1) => (binop_strategy(), s(), s()).prop_map(|(o, a, b)| Op::Bin(o, a, b)),
+        (w.apply / 6).max(1) => s().prop_map(Op::Not),
+        (w.apply / 4).max(1) => (s(), s(), s()).prop_map(|(a, b, c)| Op::Ite(a, b, c)),
+        (w.quant).max(1) => (0u8..3, s(), s()).prop_map(|(q, a, m)| Op::Quant(q, a, m)),
+        (w.quant).max(1) => (0u8..3, binop_strategy(), s(), s(), s()).prop_map(|(q, o, a, b, m)| Op::ApplyQuant(q, o, a, b, m)),
+        (w.quant).max(1) => (s(), s(), s()).prop_map(|(a, p, n)| Op::Restrict(a, p, n)),
+        (w.subst / 2).max(1) => (0u8..4, s(), proptest::collection::vec(s(), 1..4)).prop_map(|(sl, m, r)| Op::NewSubst(sl, m, r)),
+        (w.subst).max(1) => (0u8..4, s()).prop_map(|(sl, a)| Op::Subst(sl, a)),
+        (w.apply / 8).max(1) => (s(), any::<bool>()).prop_map(|(a, b)| Op::Cofactor(a, b)),
+        (w.lifecycle / 3).max(1) => s().prop_map(Op::Clone),
+        (w.lifecycle).max(1) => s().prop_map(Op::Drop),
+        (w.lifecycle / 6).max(1) => s().prop_map(Op::DropOnThread),
+        (w.lifecycle / 12).max(1) => Just(Op::DropAll),
+        (w.gc).max(1) => Just(Op::Gc),
+        (w.gc / 2).max(1) => any::<u8>().prop_map(Op::Churn),
+        (w.add_vars).max(1) => (1u8..3).prop_map(Op::AddVars),
+        (w.reorder).max(1) => (proptest::collection::vec(s(), 8), s(), any::<bool>()).prop_map(|(k, m, q)| Op::SetOrder(k, m, q)),
+        (w.rebuild).max(1) => s().prop_map(Op::Rebuild),
+        (w.repeat).max(1) => Just(Op::Repeat),
+        (w.repeat).max(1) => (binop_strategy(), binop_strategy(), s(), s()).prop_map(|(o1, o2, a, b)| Op::BinPair(o1, o2, a, b)),
+        (w.subst / 2).max(1) => (0u8..4, 0u8..4, s()).prop_map(|(s1, s2, a)| Op::SubstAlt(s1, s2, a)),
     ]
     .boxed()
 }
